@@ -219,7 +219,7 @@ class IndexSpace:
                 env[g.target.id] = OTHER
 
 
-def r3_one_index_space(ctx, rule="C02.R3") -> None:
+def r3_one_index_space(ctx, rule="C02.R3", rule5="C02.R5") -> None:
     prog = ctx.program
     hugr = prog.cls(f"{BASE}.Hugr")
     nd = prog.cls(f"{BASE}.NodeData")
@@ -335,7 +335,7 @@ def r3_one_index_space(ctx, rule="C02.R3") -> None:
                             elif isinstance(tg, ast.Name) and tg.id == off.id:
                                 val = v
                 ok = isinstance(val, ast.Call) and call_name(val) == "_constrain_offset"
-                ctx.check(ok, "C02.R5", f"Hugr._to_serial.{h.name}: {side} offset encoded", file, r.lineno,
+                ctx.check(ok, rule5, f"Hugr._to_serial.{h.name}: {side} offset encoded", file, r.lineno,
                           f"the {side} port offset `{u(val)}` is written without passing through the order-port encoder: "
                           "the internal offset -1 would reach the document", r, detail=u(val))
     else:
